@@ -67,9 +67,12 @@ class Sphere(CenteredScatterer):
 
     @property
     def indicators(self):
-        rs = ensure_array(self.r)
+        # (double precision: radii held as narrow integers overflow when
+        # squared, unsigned ones cannot be negated for the bounds)
+        rs = np.asarray(ensure_array(self.r), dtype=float)
         funcs = [
-            (lambda points, ri=ri: (points**2).sum(-1) < ri**2) for ri in rs]
+            (lambda points, ri=ri: (np.asarray(points, dtype=float)**2).sum(-1)
+             < ri**2) for ri in rs]
         r = max(rs)
         return Indicators(funcs, [[-r, r], [-r, r], [-r, r]])
 
